@@ -17,7 +17,8 @@ RULE = ("random expression programs (3-8 operator applications) over a pool of m
         "checked in lock-step; finally value()/pubo_value/... are compared on random assignments. Non-trivial = "
         "program whose final reference polynomial has >= 2 terms; distinct = digest of the initial pool and the "
         "operation list")
-TIERS = {"quick": {"shards": 8, "cases": 400}, "thorough": {"shards": 16, "cases": 15000}}
+TIERS = {"quick": {"shards": 8, "cases": 4000}, "thorough": {"shards": 16, "cases": 40000}}
+FLOOR_BASE = {"quick": 400, "thorough": 15000}    # case counts the floors below were calibrated for; the launcher scales them
 OPS = ["add", "radd", "iadd", "sub", "rsub", "isub", "mul", "rmul", "imul", "pow", "ipow", "truediv", "itruediv", "neg", "pos"]
 TYPES = {"bool": ["QUBO", "PUBO", "PCBO", "QUBOMatrix", "PUBOMatrix"],
          "spin": ["QUSO", "PUSO", "PCSO", "QUSOMatrix", "PUSOMatrix"]}
